@@ -71,7 +71,7 @@ def scenario(seed, cause, point, consumer, lines, restart=True):
 
     def on_line(task, code, lineno):
         h = heads.get((code.co_filename, code.co_name))
-        if h and h[1] == lineno and teardown["at"] is not None and obs["second"] is None and obs["phase"] != "ended" and task is not None:
+        if h and h[1] == lineno and teardown.get("done") is not None and obs["second"] is None and obs["phase"] != "ended" and task is not None:
             if task.name.endswith(LIB_THREADS) or task.name == "consumer":
                 evals[(h[0], task.name)] = evals.get((h[0], task.name), 0) + 1
     s.line_hook = on_line if lines else None
@@ -80,7 +80,10 @@ def scenario(seed, cause, point, consumer, lines, restart=True):
     def logged_close(self):
         if teardown["at"] is None:
             teardown["at"] = s.steps
-        return orig_close(self)
+        try:
+            return orig_close(self)
+        finally:
+            teardown.setdefault("done", s.steps)          # every stop flag is set from here on
     ST.DiameterAssociation.close = logged_close
     try:
         def consumer_fn():
@@ -397,7 +400,7 @@ def explore(chk, rng, n, tag):
             chk.violation(v[0], inp, "Closed, socket released, threads terminated, blocked calls returned, restartable", v[1], finding=v[2])
         elif info["teardown_at"] is not None and info["phase"] == "done":
             chk.count("ended-and-restarted")
-        # quantitative tie to Model/Teardown.lean (theorem exits_in_two / need_after): after the closing tick a loop
+        # quantitative tie to Model/Teardown.lean (theorem exits_in_two / need_after): once the closing tick has set the flags a loop
         # evaluates its condition at most twice (once possibly half-way through when the flags changed, once to leave)
         for loop, n in info.get("loop_evals_after_teardown", {}).items():
             chk.count("loop-evaluations-after-closing-tick:%d" % n)
